@@ -82,6 +82,10 @@ pub struct Case {
     /// plan steps are fractions (x/65536 of the non-preemptive decision count) instead of absolute
     #[serde(default)]
     pub relative: bool,
+    /// after running `plan`, also run every plan that adds ONE more preemption at a later
+    /// decision (complete enumeration at preemption bound |plan|+1 below this prefix)
+    #[serde(default)]
+    pub expand: bool,
 }
 
 fn vecf(i: u64) -> Vec<f32> {
@@ -307,7 +311,7 @@ impl Prop for C08 {
                 th.push(OpK::Stats);
             }
         }
-        Case { strat, shape, threads, plan, relative: true }
+        Case { strat, shape, threads, plan, relative: true, expand: false }
     }
     fn run(&self, case: &Case, env: &CaseEnv) -> Result<CaseReport, Failure> {
         let mut rep = CaseReport::default();
@@ -315,6 +319,24 @@ impl Prop for C08 {
         judge(case, &out, &mut rep, env)?;
         rep.count("decisions", out.decisions as u64);
         rep.count("lock_order_edges", out.edges.len() as u64);
+        if case.expand && !case.relative {
+            let last = case.plan.iter().map(|(d, _)| *d).max().unwrap_or(0);
+            for (d, (alts, me_ready)) in out.trace.iter().enumerate() {
+                if (d as u32) > last && *alts > 1 && *me_ready {
+                    let mut c = case.clone();
+                    c.expand = false;
+                    c.plan.push((d as u32, 1));
+                    let o2 = execute(&c, env, "x")?;
+                    let _ = std::fs::remove_dir_all(env.scratch_root().join("x"));
+                    judge(&c, &o2, &mut rep, env).map_err(|mut f| {
+                        f.msg = format!("[plan {:?}] {}", c.plan, f.msg);
+                        f
+                    })?;
+                    rep.count("evaluations_judged", 1);
+                    rep.count("decisions", o2.decisions as u64);
+                }
+            }
+        }
         let waited = out.blocked_events > 0;
         rep.nontrivial = !case.plan.is_empty() && (waited || out.decisions > 20);
         if waited {
@@ -325,15 +347,11 @@ impl Prop for C08 {
 }
 
 /// All single-preemption cases for every ordered pair (baseline pass first).
-fn pair_cases(ctx: &Ctx, strats: &[Strat], shapes: &[u8]) -> Vec<Case> {
+fn pair_cases(ctx: &Ctx, strats: &[Strat], shapes: &[u8], expand: bool) -> Vec<Case> {
     let mut combos = vec![];
     for (si, s) in strats.iter().enumerate() {
         for sh in shapes {
-            // rotate strategies over shapes to keep the product small: every pair sees every
-            // strategy and every shape at least once
-            if (si + *sh as usize) % shapes.len() != 0 && strats.len() > 1 {
-                continue;
-            }
+            let _ = si;
             for a in CATALOGUE {
                 for b in CATALOGUE {
                     combos.push((*s, *sh, *a, *b));
@@ -354,7 +372,7 @@ fn pair_cases(ctx: &Ctx, strats: &[Strat], shapes: &[u8]) -> Vec<Case> {
                     break;
                 }
                 let (s, sh, a, b) = &combos[i];
-                let base = Case { strat: *s, shape: *sh, threads: vec![vec![*a], vec![*b]], plan: vec![], relative: false };
+                let base = Case { strat: *s, shape: *sh, threads: vec![vec![*a], vec![*b]], plan: vec![], relative: false, expand: false };
                 let mut v = vec![base.clone()];
                 if let Ok(o) = execute(&base, &env, &format!("base{}", i)) {
                     for (d, (alts, me_ready)) in o.trace.iter().enumerate() {
@@ -383,13 +401,15 @@ pub fn main(ctx: &Ctx) {
     sched::install();
     run_committed_replays(ctx, &C08 { part_name: "pairs" });
     run_committed_replays(ctx, &C08 { part_name: "schedules" });
-    let (strats, shapes): (&[Strat], &[u8]) = match ctx.tier {
-        Tier::Quick => (&[Strat::LearnedTrained, Strat::Lru], &[0, 1]),
-        Tier::Thorough => (&[Strat::Lru, Strat::LearnedTrained, Strat::LearnedSemantic, Strat::AbTest], &[0, 1, 2]),
-    };
-    let cases = pair_cases(ctx, strats, shapes);
+    let all: &[Strat] = &[Strat::Lru, Strat::LearnedTrained, Strat::LearnedSemantic, Strat::AbTest, Strat::LearnedUntrained];
+    let cases = pair_cases(ctx, all, &[0, 1, 2], false);
     run_cases(ctx, &C08 { part_name: "pairs" }, "pairs", cases, true);
-    run_pbt(ctx, &C08 { part_name: "schedules" }, ctx.tier.pick(1_500, 40_000));
+    if ctx.tier == Tier::Thorough {
+        // complete at preemption bound 2 for two configurations
+        let cases = pair_cases(ctx, &[Strat::LearnedTrained], &[0, 1], true);
+        run_cases(ctx, &C08 { part_name: "pairs" }, "pairs_bound2", cases, true);
+    }
+    run_pbt(ctx, &C08 { part_name: "schedules" }, ctx.tier.pick(30_000, 600_000));
 }
 
 pub fn replay(ctx: &Ctx, v: &serde_json::Value) -> Option<i32> {
